@@ -26,9 +26,10 @@ def cmd_replay(a):
     pid = trace["prop"]
     pm = engine.prop_module(pid)
     known = [e for e in engine.load_known_findings() if e["property"] == pid]
-    pools = engine.Pools((trace["world"],), nworkers=1)
+    worlds = (trace["world"],) + ((trace["compare_world"],) if trace.get("compare_world") else ())
+    pools = engine.Pools(worlds, nworkers=len(worlds))
     try:
-        res = pools.run_one({"seed": trace.get("seed"), "trace": trace, "keep_recs": True})
+        res = engine.run_trace(pools, trace, keep_recs=True)
     finally:
         pools.close()
     if "harness_error" in res:
